@@ -96,6 +96,14 @@ type parser struct {
 	funcEffect a.Effect
 	loops      a.LoopStack
 	allowVar   bool
+
+	// exprDepth, typeExprDepth and bodyDepth count the nesting of the
+	// expression, type expression and block (or else-if / else-iterate chain)
+	// being parsed. They bound both the parser's recursion and the depth of
+	// the AST that it builds.
+	exprDepth     uint32
+	typeExprDepth uint32
+	bodyDepth     uint32
 }
 
 func (p *parser) line() uint32 {
@@ -496,6 +504,12 @@ func (p *parser) parseFieldNode1(flags a.Flags) (*a.Node, error) {
 }
 
 func (p *parser) parseTypeExpr() (*a.TypeExpr, error) {
+	if p.typeExprDepth > a.MaxTypeExprDepth {
+		return nil, fmt.Errorf(`parse: type expression recursion depth too large at %s:%d`, p.filename, p.line())
+	}
+	p.typeExprDepth++
+	defer func() { p.typeExprDepth-- }()
+
 	if x := p.peek1(); x == t.IDNptr || x == t.IDPtr {
 		p.src = p.src[1:]
 		rhs, err := p.parseTypeExpr()
@@ -617,6 +631,12 @@ func (p *parser) parseBracket(sep t.ID) (op t.ID, ei *a.Expr, ej *a.Expr, err er
 }
 
 func (p *parser) parseBlock(doubleCurly bool) ([]*a.Node, error) {
+	if p.bodyDepth > a.MaxBodyDepth {
+		return nil, fmt.Errorf(`parse: body recursion depth too large at %s:%d`, p.filename, p.line())
+	}
+	p.bodyDepth++
+	defer func() { p.bodyDepth-- }()
+
 	if doubleCurly {
 		if x := p.peek1(); x != t.IDOpenDoubleCurly {
 			got := p.tm.ByID(x)
@@ -1161,6 +1181,12 @@ func (p *parser) parseIOManipNode() (*a.Node, error) {
 }
 
 func (p *parser) parseIf() (*a.If, error) {
+	if p.bodyDepth > a.MaxBodyDepth {
+		return nil, fmt.Errorf(`parse: body recursion depth too large at %s:%d`, p.filename, p.line())
+	}
+	p.bodyDepth++
+	defer func() { p.bodyDepth-- }()
+
 	if x := p.peek1(); x != t.IDIf {
 		got := p.tm.ByID(x)
 		return nil, fmt.Errorf(`parse: expected "if", got %q at %s:%d`, got, p.filename, p.line())
@@ -1230,6 +1256,12 @@ func (p *parser) parseIterateNode() (*a.Node, error) {
 }
 
 func (p *parser) parseIterateBlock(label t.ID, assigns []*a.Node) (*a.Iterate, error) {
+	if p.bodyDepth > a.MaxBodyDepth {
+		return nil, fmt.Errorf(`parse: body recursion depth too large at %s:%d`, p.filename, p.line())
+	}
+	p.bodyDepth++
+	defer func() { p.bodyDepth-- }()
+
 	if x := p.peek1(); x != t.IDOpenParen {
 		got := p.tm.ByID(x)
 		return nil, fmt.Errorf(`parse: expected "(", got %q at %s:%d`, got, p.filename, p.line())
@@ -1415,6 +1447,12 @@ func (p *parser) parsePossibleListExprNode() (*a.Node, error) {
 }
 
 func (p *parser) parsePossibleListExpr() (*a.Expr, error) {
+	if p.exprDepth > a.MaxExprDepth {
+		return nil, fmt.Errorf(`parse: expression recursion depth too large at %s:%d`, p.filename, p.line())
+	}
+	p.exprDepth++
+	defer func() { p.exprDepth-- }()
+
 	// TODO: put the [ and ] parsing into parseExpr.
 	if x := p.peek1(); x != t.IDOpenBracket {
 		return p.parseExpr()
@@ -1488,6 +1526,12 @@ func (p *parser) parseExpr1() (*a.Expr, error) {
 }
 
 func (p *parser) parseOperand() (*a.Expr, error) {
+	if p.exprDepth > a.MaxExprDepth {
+		return nil, fmt.Errorf(`parse: expression recursion depth too large at %s:%d`, p.filename, p.line())
+	}
+	defer func(d uint32) { p.exprDepth = d }(p.exprDepth)
+	p.exprDepth++
+
 	switch x := p.peek1(); {
 	case x.IsUnaryOp():
 		p.src = p.src[1:]
@@ -1526,6 +1570,11 @@ func (p *parser) parseOperand() (*a.Expr, error) {
 	lhs := a.NewExpr(0, 0, id, nil, nil, nil, nil)
 
 	for first := true; ; first = false {
+		if p.exprDepth > a.MaxExprDepth {
+			return nil, fmt.Errorf(`parse: expression recursion depth too large at %s:%d`, p.filename, p.line())
+		}
+		p.exprDepth++
+
 		flags := a.Flags(0)
 		switch p.peek1() {
 		default:
